@@ -755,10 +755,10 @@ pub fn run(mut ctx: Ctx) -> ! {
              handles, relay one message, poll one session, poll the manager stream; hub store 0-2 operations, remotes offer 0-2 \
              operations during sync, sync phase up-front or interleaved, subscribe before/after session creation; then fixpoint \
              and orderly close; non-trivial = some operation consumed from >=2 remotes with >=3 sessions",
-            1_000,
-            25_000,
+            3_000,
+            60_000,
         )
-        .min_nontrivial(0.3),
+        .min_nontrivial(0.4),
         move || case_strategy(max_steps, false),
         check_flow,
     );
@@ -780,10 +780,10 @@ pub fn run(mut ctx: Ctx) -> ! {
             "one live session with de-duplication capacity 1-4; 1-40 (thorough 80) steps of remote Live(op) / local payload over \
              6 operations; reference ring of the last `capacity` accepted hashes stepped along the transport trace; non-trivial \
              = the window evicted at least once",
-            4_000,
-            100_000,
+            20_000,
+            400_000,
         )
-        .min_nontrivial(0.5),
+        .min_nontrivial(0.6),
         move || window_strategy(max_steps * 2 / 3),
         check_window,
     );
